@@ -250,7 +250,7 @@ class World(object):
         return self.emit({"op": "set", "a": a, "what": what, "v": jval(v), "v2": jval(v2)})
 
     def connect(self, a, clientId="c", keepalive=0, cleanStart=True, version=4, **kw):
-        ver = {3: v31, 4: v311}.get(version, version)
+        ver = v31 if version == 3 else v311 if version == 4 else version
         def go():
             d = self.p[a].connect(clientId, keepalive=keepalive, cleanStart=cleanStart, version=ver, **kw)
             self.track(d)
@@ -336,7 +336,7 @@ def jpayload(m):
         return {"ty": "str", "v": cps(m)}
     if isinstance(m, bytearray):
         return {"ty": "bytes", "v": list(m)}
-    return {"ty": type(m).__name__ if m is not None else "none"}
+    return {"ty": ("py" + type(m).__name__) if m is not None else "none"}
 
 
 def jtopics(t):
